@@ -231,6 +231,16 @@ def run_case(case):
     has_prologue = any(ev[0] == "run" and ev[1] == "_ecb_init_hbuff" for ev in b["events"])
     if uses_hbuff != has_prologue:
         obs["viols"].append({"sig": "C04/hbuff-prologue/" + ("missing" if uses_hbuff else "unneeded"), "detail": detail})
+    if kind_name in ("HGET", "HPUT"):
+        # "exactly when the program uses HBUFF": the same program without its HBUFF statement (not runnable in Color
+        # BASIC, but convertible) must come out without the buffer prologue
+        stmts2 = [st for st in stmts if not (st[0] == "dev" and st[1] == "HBUFF")]
+        prog2 = [(10, SETUP), (20, stmts2 if not case.get("in_if") else
+                               [("if", ("bin", "=", ("var", "A"), X.num(3)), ("stmts", stmts2), [], None)])]
+        conv2 = harness.convert(render(prog2), initialize_vars=case.get("init", False))
+        obs["counters"]["prologue_only_checks"] = 1
+        if conv2["ok"] and "_ecb_init_hbuff" in conv2["out"]:
+            obs["viols"].append({"sig": "C04/hbuff-prologue/unneeded-without-HBUFF", "detail": dict(detail, source2=render(prog2)[-200:])})
     exp2 = [e for e in exp if e[0] != "octo"]
     got2 = got
     if len(exp2) != len(got2):
